@@ -32,7 +32,7 @@ BUDGET = {
 }
 CONSTRUCTORS = ["topology", "topology", "topology-dict", "vertices", "ds-ugrid", "ds-mpas", "ds-esmf", "ds-scrip", "ds-exodus", "ds-icon"]
 LAZY = ["edge_node_connectivity", "face_edge_connectivity", "node_face_connectivity", "face_lon", "node_x", "face_x", "face_areas", "edge_lon"]
-MUTATORS = ["centers-avg", "centers-welzl", "normalize", "chunk", "set-node_lon", "set-face_areas", "lazy"]
+MUTATORS = ["centers-avg", "centers-welzl", "normalize", "chunk", "set-node_lon", "set-face_areas", "lazy", "inplace-coords", "inplace-conn"]
 EDITS = ["xr-inplace", "xr-attrs", "xr-delete", "gdf-column", "gdf-drop", "uxda-gdf", "uxda-gdf-nocache"]
 
 
@@ -262,6 +262,7 @@ def run_case(case, ctx):
         return fails
 
     setter_seen = False
+    own_edit_of_orig = False
     for si, st_ in enumerate(case["steps"]):
         kind, side, what, arg = st_
         other = "copy" if side == "orig" else "orig"
@@ -279,12 +280,23 @@ def run_case(case, ctx):
                     tgt.chunk(n_node=2, n_face=2)
                 elif what == "set-node_lon":
                     tgt.node_lon = xr.DataArray(np.asarray(tgt.node_lon.values) * 0.5, dims=tgt.node_lon.dims)
+                elif what == "inplace-coords":
+                    # the arrays a grid hands out are its own: editing them in place must stay on that side
+                    tgt.node_lat.values[...] = tgt.node_lat.values * 0.5
+                elif what == "inplace-conn":
+                    tab = tgt.face_node_connectivity.values
+                    k0 = int(np.sum(tab[0] != build.consts()[1]))
+                    tab[0, :k0] = np.roll(tab[0, :k0].copy(), 1)  # the same face from another starting corner: every derived table stays valid
                 elif what == "set-face_areas":
                     tgt.face_areas = xr.DataArray(np.full(tgt.n_face, 7.0), dims=["n_face"])
                 else:
                     getattr(tgt, arg)
             except (ImportError, ModuleNotFoundError):
                 continue
+            if what.startswith("inplace") and side == "orig":
+                # the harness itself wrote into arrays the original may legitimately still share with its inputs:
+                # from here on a change of the inputs is no longer the library's doing
+                own_edit_of_orig = True
             if what == "set-node_lon" and not setter_seen:
                 setter_seen = True  # only the first setter of a history: later ones meet frames cached before (staleness of a grid's own cache is not C19's subject)
                 # geometry exports must follow each side's own coordinates (mutated side first, so that a cache
@@ -381,5 +393,6 @@ def run_case(case, ctx):
                 if len(again) != n_expected:
                     fails.append(Failure("exports_detached", site, "rows", f"step {si}: Grid.to_geodataframe() now has {len(again)} rows, it had {n_expected} before the caller's edit"))
                     return fails
-    inputs_check("at the end of the history")
+    if not own_edit_of_orig:
+        inputs_check("at the end of the history")
     return fails
